@@ -4,7 +4,7 @@
 #
 # Nothing here imports afkak's codec for the network side: requests are parsed and responses are encoded by the small
 # independent functions below, written from the Kafka protocol guide (Metadata v0, FindCoordinator v0, ListOffsets v0,
-# OffsetFetch v1, OffsetCommit v1, Produce v0).
+# OffsetFetch v1, OffsetCommit v1, Produce v0, Fetch v0).
 import collections
 import random
 import struct
@@ -43,8 +43,8 @@ def topic_id(name):
     return int(name[1:]) if name[:1] == "t" and name[1:].lstrip("-").isdigit() else -1
 
 
-def group_name(g):
-    return "g%d" % g
+def group_name(g, form=None):
+    return ("g%d" % g).encode() if form == "bytes" else "g%d" % g
 
 
 def group_id(name):
@@ -131,6 +131,13 @@ def dec_data_request(key, r):
             for _ in range(r.u(">i")):
                 p, tm, _mx = r.u(">iqi")
                 out.append((t, p, tm))
+    elif key == 1:                                 # Fetch v0
+        r.u(">iii")
+        for _ in range(r.u(">i")):
+            t = topic_id(r.s())
+            for _ in range(r.u(">i")):
+                p, off, _mx = r.u(">iqi")
+                out.append((t, p, off))
     elif key == 9:                                 # OffsetFetch v1
         grp = group_id(r.s())
         for _ in range(r.u(">i")):
@@ -189,6 +196,8 @@ def enc_data_response(key, corr, resps):
         for _t, p, e, g in rs:
             if key == 2:
                 b += struct.pack(">ihi", p, e, 1) + struct.pack(">q", g)
+            elif key == 1:
+                b += struct.pack(">ihq", p, e, g) + struct.pack(">i", 0)     # empty message set
             elif key == 9:
                 b += struct.pack(">iq", p, g) + struct.pack(">h", 0) + struct.pack(">h", e)
             elif key == 8:
@@ -718,7 +727,7 @@ class Sim(object):
                 tag = 0
                 if q["key"] == API_SIMPLE:
                     tag = None
-                elif q["key"] in (2, 9, 0):
+                elif q["key"] in (2, 9, 0, 1):
                     tag = keymap[(t, p)] if keymap is not None else 0
                 rs.append([t, p, self.honest_err(plan, q["node"], t, p, rec.get("group"), errs), tag])
             if q["key"] == API_SIMPLE:
@@ -875,7 +884,7 @@ class Sim(object):
             obs.update(load=ld, code=code, gone=gone, extra_loads=po["loads"][1:], notes_from=nlose0)
         elif kind == "coord":
             res = []
-            d = c.load_coordinator_for_group(group_name(op["group"]))
+            d = c.load_coordinator_for_group(group_name(op["group"], op.get("group_form")))
             d.addBoth(res.append)
             po = self.pump(plan, res, {})
             self.settle()
@@ -950,7 +959,7 @@ class Sim(object):
             g = op["group"]
             tag = op.get("tag", 1)
             pl = SimplePayload("t-1", -1, tag)
-            d = c._send_request_to_coordinator(group_name(g), pl, simple_encoder, simple_decoder_one)
+            d = c._send_request_to_coordinator(group_name(g, op.get("group_form")), pl, simple_encoder, simple_decoder_one)
             d.addBoth(res.append)
             po = self.pump(plan, res, {"keymap": None, "expect": True, "group": g})
             self.settle()
@@ -969,6 +978,7 @@ class Sim(object):
             return case, trace, {"pump": po, "result": res}
         api = op["api"]
         g = op.get("group")
+        gform = op.get("group_form")
         payloads = op["payloads"]                      # list of (t, p); the tag of payload i is i+1
         tags = list(range(1, len(payloads) + 1))
         keymap = None
@@ -981,16 +991,19 @@ class Sim(object):
         if api == "direct":
             pls = [SimplePayload(topic_name(t), p, tag) for (t, p), tag in zip(payloads, tags)]
             d = c._send_broker_aware_request(pls, simple_encoder, simple_decoder if expect else None,
-                                             consumer_group=None if g is None else group_name(g))
+                                             consumer_group=None if g is None else group_name(g, gform))
         elif api == "offset":
             pls = [C.OffsetRequest(topic_name(t), p, tag, 1) for (t, p), tag in zip(payloads, tags)]
             d = c.send_offset_request(pls, fail_on_error=fail)
         elif api == "offset_fetch":
             pls = [C.OffsetFetchRequest(topic_name(t), p) for (t, p) in payloads]
-            d = c.send_offset_fetch_request(group_name(g), pls, fail_on_error=fail)
+            d = c.send_offset_fetch_request(group_name(g, gform), pls, fail_on_error=fail)
         elif api == "offset_commit":
             pls = [C.OffsetCommitRequest(topic_name(t), p, tag, 0, b"") for (t, p), tag in zip(payloads, tags)]
-            d = c.send_offset_commit_request(group_name(g), pls, fail_on_error=fail)
+            d = c.send_offset_commit_request(group_name(g, gform), pls, fail_on_error=fail)
+        elif api == "fetch":
+            pls = [C.FetchRequest(topic_name(t), p, tag, 1024) for (t, p), tag in zip(payloads, tags)]
+            d = c.send_fetch_request(pls, fail_on_error=fail, max_wait_time=100)
         elif api == "produce":
             pls = [C.ProduceRequest(topic_name(t), p, []) for (t, p) in payloads]
             d = c.send_produce_request(pls, acks=1 if expect else 0, fail_on_error=fail)
@@ -1014,6 +1027,8 @@ class Sim(object):
                 return r.offsets[0] if r.offsets else -1
             if api in ("offset_fetch", "produce"):
                 return r.offset
+            if api == "fetch":
+                return r.highwaterMark
             return 0
 
         def tag_of_payload(p):
